@@ -549,6 +549,16 @@ class DestHandler:
                 TransactionStep.WAITING_FOR_FINISHED_ACK,
             ]
         ):
+            eof_pdu = pdu_holder.to_eof_pdu()
+            if (
+                eof_pdu.condition_code != ConditionCode.NO_ERROR
+                and self.states.step == TransactionStep.WAITING_FOR_MISSING_DATA
+            ):
+                # The sender cancelled the transaction after sending the EOF (No Error) PDU.
+                # Stop the lost segment recovery and perform the Cancel Response Procedures.
+                self._params.acked_params.deferred_lost_segment_detection_active = False
+                self._handle_eof_pdu(eof_pdu)
+                return
             # CFDP 4.7.2: Every EOF PDU must be acknowledged. A re-sent EOF PDU means that the
             # sender did not receive the previous ACK PDU.
             self._prepare_eof_ack_packet()
